@@ -27,6 +27,19 @@ pub enum Item {
     M(std::collections::BTreeMap<String, i64>),
 }
 type Doc = Vec<Item>;
+/// the same documents through the validating iterators (validation always passes: they must behave like `read`)
+#[derive(Deserialize, Debug, PartialEq)]
+#[serde(transparent)]
+pub struct VDoc(Vec<Item>);
+impl garde::Validate for VDoc {
+    type Context = ();
+    fn validate_into(&self, _ctx: &Self::Context, _parent: &mut dyn FnMut() -> garde::Path, _report: &mut garde::Report) {}
+}
+impl validator::Validate for VDoc {
+    fn validate(&self) -> Result<(), validator::ValidationErrors> {
+        Ok(())
+    }
+}
 
 fn kind_text(k: &str, variant: usize) -> &'static str {
     // a document that defines the anchor `a` comes in three shapes; the third nests a second anchor inside the first
@@ -137,6 +150,34 @@ pub fn observe(text: &str) -> (Vec<Vec<String>>, Vec<Vec<String>>, Vec<String>) 
         })
         .unwrap_or_else(|p| vec![format!("PANIC:{p}")]),
     );
+    // the validating iterators and the iterator with explicit options
+    for which in ["valid", "validate", "options"] {
+        let t = text.to_string();
+        iters.push(
+            guarded(move || {
+                let mut rd = std::io::Cursor::new(t.into_bytes());
+                let mut out = vec![];
+                macro_rules! drain {
+                    ($it:expr, $f:expr) => {
+                        for (n, r) in $it.enumerate() {
+                            if n > 40 {
+                                out.push("NONTERMINATING".to_string());
+                                break;
+                            }
+                            out.push(item_of(r.map($f)));
+                        }
+                    };
+                }
+                match which {
+                    "valid" => drain!(serde_saphyr::read_valid::<_, VDoc>(&mut rd), |v: VDoc| v.0),
+                    "validate" => drain!(serde_saphyr::read_validate::<_, VDoc>(&mut rd), |v: VDoc| v.0),
+                    _ => drain!(serde_saphyr::read_with_options::<_, Doc>(&mut rd, serde_saphyr::Options::default()), |v: Doc| v),
+                }
+                out
+            })
+            .unwrap_or_else(|p| vec![format!("PANIC:{p}")]),
+        );
+    }
     // single
     let s = |r: Result<Doc, serde_saphyr::Error>| -> String {
         match r {
